@@ -46,6 +46,13 @@ package migration
 //     API store;
 //   - a failed write leaves no trace (fail) or is fully applied (lost response); reads never fail;
 //   - the user may edit spec.paused of a job at any time (a write to the job by somebody else);
+//   - bounded cache lag (step reconcile-stale): the controller reads jobs through an informer cache, so the job
+//     handed to Reconcile may be the version BEFORE the controller's own last write of that job - never anything
+//     older, only until the next reconcile of the job / clock step / restart (a restarted controller starts from a
+//     freshly synced cache) / write by somebody else, only in histories without an injected fault or before it.
+//     Pods and reservations are always read fresh. This is not an API error: at-most-once still applies;
+//   - resourceVersions are revision numbers of any magnitude: jobs enter the store at 1 (20%) or 1..10 writes below
+//     10 / 100 / 1000 / 10^6 / 10^10, so that the version gains a digit inside the history;
 //   - with graceful pods an evicted pod stays in the store as a terminating object (deletionTimestamp set) until
 //     the environment finishes its termination;
 //   - jobs: 1-3, possibly two jobs for the same pod (user-created jobs), podRef.uid empty / correct / stale, podRef
@@ -157,26 +164,28 @@ func c17Setup() {
 // case configuration
 
 type c17JobCfg struct {
-	Name         string        `json:"name"`
-	PodName      string        `json:"pod"`
-	PodNode      string        `json:"pod_node"`
-	SharedPod    bool          `json:"shares_pod_of_job0"` // this job targets the same pod as job-0 (legal for user-created jobs)
-	BarePod      bool          `json:"bare_pod"`           // the pod has no controller owner reference
-	TTLSet       bool          `json:"ttl_set"`
-	TTL          time.Duration `json:"ttl"`               // with TTLSet: 0 (explicit zero = no timeout), 1s, 15s, 1h
-	CreatedAt    time.Duration `json:"created_at_offset"` // creationTimestamp relative to the clock's start: 0, in the past, or ahead (skew)
-	Mode         string        `json:"spec_mode"`         // spec.mode as the user wrote it: "" / ReservationFirst / EvictDirectly
-	DeleteOpts   bool          `json:"spec_delete_options"`
-	PodRefUID    string        `json:"pod_ref_uid"`     // "" (user job) / "correct" (as the descheduler creates them) / "stale"
-	InvalidRef   bool          `json:"invalid_pod_ref"` // podRef without a name
-	Paused       bool          `json:"paused_at_start"`
-	InitPending  bool          `json:"initial_phase_pending"`
-	EvictAnnot   bool          `json:"evict_reason_annotations"`
-	TemplateName string        `json:"reservation_template_name,omitempty"` // user-supplied reservationOptions.template with its own name
-	PendingPod   bool          `json:"pending_pod"`                         // the target pod is an unscheduled pod: reservation owner is the pod itself
-	NeedPreempt  bool          `json:"need_preemption"`                     // the reservation object answers NeedPreemption()==true
-	PreemptCalls int           `json:"preempt_calls"`                       // Preempt reports completion on this call
-	CreatedBy    bool          `json:"created_by_annot"`                    // carries AnnotationJobCreatedBy of the first reconciler
+	Name           string        `json:"name"`
+	PodName        string        `json:"pod"`
+	PodNode        string        `json:"pod_node"`
+	SharedPod      bool          `json:"shares_pod_of_job0"` // this job targets the same pod as job-0 (legal for user-created jobs)
+	BarePod        bool          `json:"bare_pod"`           // the pod has no controller owner reference
+	TTLSet         bool          `json:"ttl_set"`
+	TTL            time.Duration `json:"ttl"`               // with TTLSet: 0 (explicit zero = no timeout), 1s, 15s, 1h
+	CreatedAt      time.Duration `json:"created_at_offset"` // creationTimestamp relative to the clock's start: 0, in the past, or ahead (skew)
+	Mode           string        `json:"spec_mode"`         // spec.mode as the user wrote it: "" / ReservationFirst / EvictDirectly
+	DeleteOpts     bool          `json:"spec_delete_options"`
+	PodRefUID      string        `json:"pod_ref_uid"`     // "" (user job) / "correct" (as the descheduler creates them) / "stale"
+	InvalidRef     bool          `json:"invalid_pod_ref"` // podRef without a name
+	Paused         bool          `json:"paused_at_start"`
+	InitPending    bool          `json:"initial_phase_pending"`
+	EvictAnnot     bool          `json:"evict_reason_annotations"`
+	SelectorOwners bool          `json:"reservation_owners_by_label_selector"` // user template / user reservation selects its owners by labels, in any namespace
+	StartRV        int64         `json:"start_resource_version"`               // resourceVersion of the job when the history starts
+	TemplateName   string        `json:"reservation_template_name,omitempty"`  // user-supplied reservationOptions.template with its own name
+	PendingPod     bool          `json:"pending_pod"`                          // the target pod is an unscheduled pod: reservation owner is the pod itself
+	NeedPreempt    bool          `json:"need_preemption"`                      // the reservation object answers NeedPreemption()==true
+	PreemptCalls   int           `json:"preempt_calls"`                        // Preempt reports completion on this call
+	CreatedBy      bool          `json:"created_by_annot"`                     // carries AnnotationJobCreatedBy of the first reconciler
 	// real-interpreter unit only: "" = the controller creates the reservation; "name-only" / "name-uid" = the job
 	// points at a Reservation that already exists (created by the user = the environment), by name without /
 	// with its uid. UserResInit is the state that Reservation is in when the history starts ("missing" = the
@@ -242,6 +251,12 @@ func c17GenCfgFor(r *kit.Rand, real bool) *c17Cfg {
 			PodRefUID:   []string{"", "correct", "stale"}[r.Weighted(60, 30, 10)],
 			CreatedAt:   []time.Duration{0, -10 * time.Second, -2 * time.Hour, 30 * time.Second}[r.Weighted(80, 7, 5, 8)],
 		}
+		// resourceVersions are opaque revision numbers of any magnitude: most jobs start a few writes below a
+		// power of ten, so that the version gains a digit somewhere inside the history
+		j.StartRV = 1
+		if r.Pct(80) {
+			j.StartRV = kit.Pick(r, []int64{10, 100, 1000, 1000000, 10000000000}) - int64(r.Range(1, 10))
+		}
 		if i > 0 && r.Pct(15) {
 			j0 := cfg.Jobs[0]
 			j.SharedPod, j.PodName, j.PodNode, j.PendingPod, j.BarePod = true, j0.PodName, j0.PodNode, j0.PendingPod, j0.BarePod
@@ -276,9 +291,12 @@ func c17GenCfgFor(r *kit.Rand, real bool) *c17Cfg {
 				j.UserResLabel = r.Pct(30)
 			}
 		}
-		if j.UserRes == "" && r.Pct(15) {
+		if j.UserRes == "" && r.Pct(20) {
 			j.TemplateName = "custom-res-" + j.Name
 		}
+		// a user-written template / user-supplied reservation may select its owners by labels instead of by the
+		// pod's controller; then pods of any namespace can consume it (e.g. web-0 of an equally named StatefulSet)
+		j.SelectorOwners = j.TemplateName != "" || (j.UserRes != "" && r.Pct(50))
 		cfg.Jobs = append(cfg.Jobs, j)
 	}
 	return cfg
@@ -482,7 +500,11 @@ type c17Job struct {
 	afterTerminal   int
 	attempts        int
 	created         time.Time
-	rf              bool // reservation-first by the documented rule (c17ReservationFirst), not by the controller's code
+	// bounded cache lag: prev is the stored job as it was before the controller's own last write; while lagOpen
+	// the controller's cache may still hand out prev (never anything older)
+	prev    *sev1alpha1.PodMigrationJob
+	lagOpen bool
+	rf      bool // reservation-first by the documented rule (c17ReservationFirst), not by the controller's code
 }
 
 type c17Step struct {
@@ -522,12 +544,13 @@ type c17World struct {
 	writeLog   []string
 	stepWrites []string
 
-	real   bool // real-interpreter unit: reservation.NewInterpreter over the faulty client; the store is the reservation
-	uidGen int
-	direct bool
-	label  string
-	log    []string
-	stamps []c17Stamp
+	staleFor *c17Job // the next Get of this job by the controller is served from the lagging cache
+	real     bool    // real-interpreter unit: reservation.NewInterpreter over the faulty client; the store is the reservation
+	uidGen   int
+	direct   bool
+	label    string
+	log      []string
+	stamps   []c17Stamp
 }
 
 func (w *c17World) op(format string, a ...any) {
@@ -653,7 +676,8 @@ func c17NewWorldFaults(c *kit.Case, cfg *c17Cfg, faults map[int]c17Fault) *c17Wo
 		}
 		if jc.TemplateName != "" {
 			job.Spec.ReservationOptions = &sev1alpha1.PodMigrateReservationOptions{Template: &sev1alpha1.ReservationTemplateSpec{
-				ObjectMeta: metav1.ObjectMeta{Name: jc.TemplateName, Labels: map[string]string{"team": "a"}}}}
+				ObjectMeta: metav1.ObjectMeta{Name: jc.TemplateName, Labels: map[string]string{"team": "a"}},
+				Spec:       sev1alpha1.ReservationSpec{Owners: []sev1alpha1.ReservationOwner{{LabelSelector: &metav1.LabelSelector{MatchLabels: map[string]string{"app": jc.PodName}}}}}}}
 		}
 		if jc.UserRes != "" {
 			// the user's Reservation exists before the job; it is built the way the controller would build one
@@ -664,6 +688,9 @@ func c17NewWorldFaults(c *kit.Case, cfg *c17Cfg, faults map[int]c17Fault) *c17Wo
 				spec: sev1alpha1.ReservationSpec{AllocateOnce: ptr.To(true), Owners: reservation.GenerateReserveResourceOwners(pod),
 					Template: &corev1.PodTemplateSpec{ObjectMeta: metav1.ObjectMeta{Labels: map[string]string{"app": jc.PodName}}, Spec: *pod.Spec.DeepCopy()}}}
 			ur.spec.Template.Spec.NodeName = ""
+			if jc.SelectorOwners {
+				ur.spec.Owners = []sev1alpha1.ReservationOwner{{LabelSelector: &metav1.LabelSelector{MatchLabels: map[string]string{"app": jc.PodName}}}}
+			}
 			switch jc.UserResInit {
 			case "scheduled-other":
 				ur.state, ur.touched, ur.node = c17ResScheduled, true, w.ring(jc.PodNode, 1)
@@ -691,18 +718,18 @@ func c17NewWorldFaults(c *kit.Case, cfg *c17Cfg, faults map[int]c17Fault) *c17Wo
 			}
 			job.Spec.ReservationOptions = &sev1alpha1.PodMigrateReservationOptions{ReservationRef: ref}
 		}
-		if err := w.store.Create(w.ctx, job); err != nil {
-			c.Harness("create job: %v", err)
-		}
 		if jc.InitPending { // somebody (the creator) has already set status.phase=Pending
 			job.Status.Phase = sev1alpha1.PodMigrationJobPending
-			if err := w.store.Status().Update(w.ctx, job); err != nil {
-				c.Harness("set initial phase: %v", err)
-			}
+		}
+		// the job enters the store with the resourceVersion the API server happens to be at
+		job.ResourceVersion = fmt.Sprintf("%d", jc.StartRV)
+		job.TypeMeta = metav1.TypeMeta{Kind: "PodMigrationJob", APIVersion: sev1alpha1.GroupVersion.String()}
+		if err := w.tracker.Add(job); err != nil {
+			c.Harness("create job: %v", err)
 		}
 		got := w.storedJob(j)
-		if !got.CreationTimestamp.Time.Equal(j.created) || got.UID != j.uid {
-			c.Harness("fake client did not keep creationTimestamp/uid: %v %v", got.CreationTimestamp, got.UID)
+		if !got.CreationTimestamp.Time.Equal(j.created) || got.UID != j.uid || got.ResourceVersion != job.ResourceVersion {
+			c.Harness("store did not keep creationTimestamp/uid/resourceVersion: %v %v %v", got.CreationTimestamp, got.UID, got.ResourceVersion)
 		}
 		j.lastPhase = got.Status.Phase
 		w.jobs = append(w.jobs, j)
@@ -1009,6 +1036,23 @@ func (w *c17World) newFaultyClient() client.WithWatch {
 				}
 			}
 		}
+		var lagJob *c17Job
+		var snap *sev1alpha1.PodMigrationJob
+		if isJob {
+			for _, j := range w.jobs {
+				if j.cfg.Name == obj.GetName() {
+					lagJob, snap = j, w.storedJob(j)
+				}
+			}
+		}
+		applied := func() {
+			if lagJob != nil { // the controller's cache may now lag by exactly this write
+				lagJob.prev, lagJob.lagOpen = snap, true
+			}
+			if isJob {
+				w.checkJobs(false)
+			}
+		}
 		switch w.write(desc) {
 		case c17FaultFail:
 			return c17Injected(desc)
@@ -1017,18 +1061,26 @@ func (w *c17World) newFaultyClient() client.WithWatch {
 			if err := do(cp); err != nil {
 				return err
 			}
-			if isJob {
-				w.checkJobs(false)
-			}
+			applied()
 			return c17Injected(desc)
 		}
 		err := do(obj)
-		if isJob {
+		if err == nil {
+			applied()
+		} else if isJob {
 			w.checkJobs(false)
 		}
 		return err
 	}
 	return interceptor.NewClient(w.store, interceptor.Funcs{
+		Get: func(ctx context.Context, cl client.WithWatch, key client.ObjectKey, obj client.Object, opts ...client.GetOption) error {
+			if job, ok := obj.(*sev1alpha1.PodMigrationJob); ok && w.staleFor != nil && w.staleFor.cfg.Name == key.Name {
+				w.staleFor.prev.DeepCopyInto(job) // the lagging cache: the version before the controller's own last write
+				w.staleFor = nil
+				return nil
+			}
+			return cl.Get(ctx, key, obj, opts...)
+		},
 		Create: func(ctx context.Context, cl client.WithWatch, obj client.Object, opts ...client.CreateOption) error {
 			return inject("Create", obj, func(o client.Object) error {
 				if o.GetUID() == "" { // the API server assigns the uid (the fake client does not)
@@ -1302,14 +1354,32 @@ func (w *c17World) apply(i int, s c17Step) bool {
 	resChanged := false
 	note := ""
 	switch s.Kind {
-	case "reconcile":
+	case "reconcile", "reconcile-stale":
 		before := w.storedJob(j)
 		if c17Terminal(before.Status.Phase) {
 			j.afterTerminal++
 			w.c.Count("reconciles_after_terminal", 1)
 		}
-		w.op("%02d reconcile(%s) t=+%v reservation=%s pod=%s", i, j.cfg.Name, w.clk.Now().Sub(c17T0), r, c17PodBrief(pod))
+		stale := ""
+		// bounded lag: only while the cache can still be one controller write behind, and (faulty variants) only up
+		// to the injected fault - a lost response combined with a lagging cache leaves no controller a way to know
+		// what it has done, the statement cannot be meant for that
+		if s.Kind == "reconcile-stale" && j.lagOpen && j.prev != nil && (len(w.faults) == 0 || !w.faultHit) {
+			w.staleFor = j
+			stale = fmt.Sprintf(" FROM LAGGING CACHE rv=%s (store rv=%s)", j.prev.ResourceVersion, before.ResourceVersion)
+			w.c.Count("stale_reconciles", 1)
+			if len(j.prev.ResourceVersion) < len(before.ResourceVersion) {
+				w.c.Count("stale_reconciles_across_digit_boundary", 1)
+			}
+		}
+		j.lagOpen = false // after this reconcile the cache has caught up (a write made by it opens a new lag)
+		evictsBefore := j.evictCalls
+		w.op("%02d %s(%s)%s t=+%v reservation=%s pod=%s", i, s.Kind, j.cfg.Name, stale, w.clk.Now().Sub(c17T0), r, c17PodBrief(pod))
 		res, err := w.rec.Reconcile(w.ctx, reconcile.Request{NamespacedName: j.key})
+		w.staleFor = nil
+		if stale != "" && len(w.stepWrites) == 0 && j.evictCalls == evictsBefore {
+			w.c.Count("stale_reconciles_without_effect", 1)
+		}
 		w.c.Count("reconciles", 1)
 		if err != nil {
 			w.c.Count("reconcile_errors", 1)
@@ -1389,6 +1459,15 @@ func (w *c17World) apply(i int, s c17Step) bool {
 			}
 			w.schedulePod(pod, r.node)
 			r.bound = &corev1.ObjectReference{Namespace: pod.Namespace, Name: pod.Name, UID: pod.UID}
+		case "other-ns":
+			// a pod of the SAME NAME in another namespace (selected by labels) consumes the reservation
+			if !j.cfg.SelectorOwners {
+				applied = false
+				break
+			}
+			w.podGen["otherns/"+j.cfg.PodName]++
+			r.bound = &corev1.ObjectReference{Namespace: "other-ns", Name: j.cfg.PodName,
+				UID: types.UID(fmt.Sprintf("other-ns-%s-u%d", j.cfg.PodName, w.podGen["otherns/"+j.cfg.PodName]))}
 		default:
 			if pod != nil && pod.UID != j.podUID && (pod.Spec.NodeName == r.node || pod.Spec.NodeName == "") {
 				// the same-name replacement consumes the reservation
@@ -1467,9 +1546,15 @@ func (w *c17World) apply(i int, s c17Step) bool {
 			d = 49 * time.Hour
 		}
 		w.clk.Step(d)
+		for _, x := range w.jobs {
+			x.lagOpen = false // time passes: the cache catches up
+		}
 		note = fmt.Sprintf(" now=+%v", w.clk.Now().Sub(c17T0))
 	case "restart":
 		w.restart()
+		for _, x := range w.jobs {
+			x.lagOpen = false // a restarted controller starts from a freshly synced cache
+		}
 	case "job-pause", "job-unpause":
 		// the user edits spec.paused: a write to the job by somebody else than the controller
 		cur := w.storedJob(j)
@@ -1482,6 +1567,7 @@ func (w *c17World) apply(i int, s c17Step) bool {
 		if err := w.store.Update(w.ctx, cur); err != nil {
 			w.c.Harness("pause/unpause: %v", err)
 		}
+		j.lagOpen = false // (the lag is bounded by the controller's own last write only)
 	default:
 		w.c.Harness("unknown step %v", s)
 	}
@@ -1547,6 +1633,9 @@ func (w *c17World) gen(r *kit.Rand) c17Step {
 		cs = append(cs, cand{c17Step{Kind: kind, Job: ji, Arg: arg}, weight})
 	}
 	add(60, "reconcile", "")
+	if j.lagOpen && j.prev != nil {
+		add(30, "reconcile-stale", "") // the watch event of the controller's own write has not arrived yet
+	}
 	res := w.res(j)
 	pod := w.storedPod(j)
 	evicted := j.evictDone > 0
@@ -1577,8 +1666,14 @@ func (w *c17World) gen(r *kit.Rand) c17Step {
 		case c17ResScheduled:
 			if evicted {
 				add(30, "res-bound", "other")
+				if j.cfg.SelectorOwners {
+					add(10, "res-bound", "other-ns")
+				}
 			} else {
 				add(5, "res-bound", "other")
+				if j.cfg.SelectorOwners {
+					add(8, "res-bound", "other-ns")
+				}
 			}
 			if pod != nil && pod.Spec.NodeName == "" {
 				add(25, "res-bound", "this")
@@ -1705,7 +1800,7 @@ func c17RunCase(c *kit.Case, cfg *c17Cfg) {
 		}{{"shared_pod", j.SharedPod}, {"bare_pod", j.BarePod}, {"ttl_explicit_zero", j.TTLSet && j.TTL == 0}, {"ttl_1s", j.TTL == time.Second},
 			{"created_in_past", j.CreatedAt < 0}, {"created_ahead_of_clock", j.CreatedAt > 0}, {"podref_uid_correct", j.PodRefUID == "correct"},
 			{"podref_uid_stale", j.PodRefUID == "stale"}, {"invalid_podref", j.InvalidRef}, {"paused_at_start", j.Paused},
-			{"initial_phase_pending", j.InitPending}, {"custom_template_name", j.TemplateName != ""}, {"user_reservation_missing", j.UserResInit == "missing"},
+			{"initial_phase_pending", j.InitPending}, {"custom_template_name", j.TemplateName != ""}, {"selector_owners", j.SelectorOwners}, {"user_reservation_missing", j.UserResInit == "missing"},
 			{"user_reservation_with_order_label", j.UserResLabel}} {
 			if on.v {
 				c.Count("jobs_"+on.name, 1)
@@ -1826,7 +1921,7 @@ func c17RunCase(c *kit.Case, cfg *c17Cfg) {
 
 func TestVerifC17Reconcile(t *testing.T) {
 	kit.Run(t, kit.Config{Property: "C17", Unit: "reconcile", Quick: 480, Thorough: 20000,
-		Rule: "1-3 jobs (15% of the extra jobs target job-0's pod), spec.mode in {empty 38%, ReservationFirst 50%, EvictDirectly 12%} and args.DefaultJobMode in {empty 20%, ReservationFirst 50%, EvictDirectly 30%} drawn independently (reservation-first by the documented rule: explicit mode wins, empty falls back to the default, empty default = ReservationFirst; the ordering clause is asserted for those jobs only), spec/args delete options set or not (TTL unset/explicit 0/1s/15s/1h; creationTimestamp at/before/ahead of the clock; podRef.uid empty/correct/stale, 3% podRef without name; 8% paused at start, user pause/unpause events; 15% initial phase Pending; 15% user-named reservation template; 10% bare pods, 50% graceful (terminating) pods, 20% PVC pods, gate DisablePVCReservation 20%; 5% long histories of 34-62 steps; 10% pending-pod mode; 25% with a scripted preemption interpreter), one fault-free history of 8-30 steps generated adaptively from {reconcile, reservation -> pending+unschedulable / scheduled(same|other node) / unschedulable / expired / deleted / bound(this|other pod), pod deleted / replaced by same name new UID (pending|old node|reservation node|third node) / scheduled, clock +5s / past TTL, controller restart}, ending with 2 reconciles per job; then the same script is re-executed with every single write k=1..n failing (nothing applied) and with every single write k applied-but-error (lost response), plus 6 sampled multi-fault variants (4 fault pairs, 2 three-write outages); evaluations = executed histories (1+2n+6 per case); non-trivial = the fault-free history evicted, reached a terminal phase and reconciled after it; distinct = (jobs, TTL, mode, final phase/reason/status, #evict calls, final reservation state, fault kind, class of the failed write, fault right after evict, reconciled after terminal)"},
+		Rule: "1-3 jobs (15% of the extra jobs target job-0's pod), spec.mode in {empty 38%, ReservationFirst 50%, EvictDirectly 12%} and args.DefaultJobMode in {empty 20%, ReservationFirst 50%, EvictDirectly 30%} drawn independently (reservation-first by the documented rule: explicit mode wins, empty falls back to the default, empty default = ReservationFirst; the ordering clause is asserted for those jobs only), spec/args delete options set or not (TTL unset/explicit 0/1s/15s/1h; creationTimestamp at/before/ahead of the clock; podRef.uid empty/correct/stale, 3% podRef without name; 8% paused at start, user pause/unpause events; 15% initial phase Pending; job resourceVersion starts at 1 or 1-10 writes below a power of ten; reconciles served from a cache lagging one controller write behind (step reconcile-stale, fault-free part of a history only); 20% user-named reservation template with label-selector owners (then the reservation may be consumed by a pod of the same name in another namespace); 10% bare pods, 50% graceful (terminating) pods, 20% PVC pods, gate DisablePVCReservation 20%; 5% long histories of 34-62 steps; 10% pending-pod mode; 25% with a scripted preemption interpreter), one fault-free history of 8-30 steps generated adaptively from {reconcile, reservation -> pending+unschedulable / scheduled(same|other node) / unschedulable / expired / deleted / bound(this|other pod), pod deleted / replaced by same name new UID (pending|old node|reservation node|third node) / scheduled, clock +5s / past TTL, controller restart}, ending with 2 reconciles per job; then the same script is re-executed with every single write k=1..n failing (nothing applied) and with every single write k applied-but-error (lost response), plus 6 sampled multi-fault variants (4 fault pairs, 2 three-write outages); evaluations = executed histories (1+2n+6 per case); non-trivial = the fault-free history evicted, reached a terminal phase and reconciled after it; distinct = (jobs, TTL, mode, final phase/reason/status, #evict calls, final reservation state, fault kind, class of the failed write, fault right after evict, reconciled after terminal)"},
 		func(c *kit.Case) { c17RunCase(c, c17GenCfg(c.R)) })
 }
 
